@@ -367,6 +367,35 @@ func TestCheck(t *testing.T) {
 		}
 	}
 
+	// (3b) three missing shards on rows {0, hr, hr+1}: zero leading minors inside non-singular systems (pivot swaps in the reconstruction)
+	for _, hr := range []int{21845, 4369} {
+		for d := 3; d <= cfg.N(7, 10); d++ {
+			for a := 0; a < d; a++ {
+				for b := a + 1; b < d; b++ {
+					for e := b + 1; e < d; e++ {
+						idx++
+						if !cfg.Mine(idx) {
+							continue
+						}
+						do(Case{Coder: "vand", D: d, P: hr + 2, Len: 4, G: 1 + idx%3, MissD: []int{a, b, e}, KeepPar: []int{0, hr, hr + 1}, Seed: uint64(idx)})
+					}
+				}
+			}
+		}
+	}
+	// (3c) long shards with several goroutines (per-goroutine ranges above and around 16 KiB)
+	for _, l := range []int{32768, 40000, 60000, 65536, 100000, 131072} {
+		for _, g := range []int{2, 3, 4, 7} {
+			for _, coder := range []string{"cauchy", "vand"} {
+				idx++
+				if !cfg.Mine(idx) {
+					continue
+				}
+				do(Case{Coder: coder, D: 3, P: 2, Len: l, G: g, MissD: []int{1}, MissP: []int{0}, Seed: uint64(idx)})
+			}
+		}
+	}
+
 	// (4) limits
 	if cfg.Shard == 0 {
 		do(Case{Coder: "vand", D: 32769, P: 1, Len: 2, G: 1})
